@@ -1,1 +1,585 @@
-/- C13 — property theorems (to be written) -/
+/-
+  C13 — conversions between representations are lossless.
+  Property theorems only; helper lemmas live in FtProofs/Lemmas/Convert.lean.
+
+  Clauses of the property and where they are stated:
+    * content / no explicit defaults / shape of `fromUncompressed`  — §1
+    * `uncompress (fromUncompressed n) (dims n) = n`                — §2 (PARTIAL: the code
+      raises on all-default nests; the failing class is proved to fail)
+    * dictionary and YAML round trips                                — §3 (YAML text layer abstracted)
+    * `fromRandom`                                                   — §4
+-/
+import FtProofs.Lemmas.Convert
+set_option linter.unusedSectionVars false
+set_option linter.unusedSimpArgs false
+set_option linter.unusedVariables false
+namespace Ft
+
+/-! ## §1  fromUncompressed -/
+
+section FromU
+variable {ν : Type} [DecidableEq ν]
+
+/-- The tree built from a nest stores exactly the nest's non-default entries, at their
+    index points, in row-major order (any nest, any default, any depth). -/
+theorem fromUncompressed_content (dflt : ν) (d : Nat) (n : Nest ν (d + 1)) :
+    content dflt (d + 1) (fromUncompressed dflt d n) = nestContent dflt (d + 1) n :=
+  content_fromUncompressed dflt d n
+
+/-- … and it is in canonical form: coordinates strictly increasing at every level, no
+    explicit default and no empty sub-fiber stored anywhere. -/
+theorem fromUncompressed_canonical (dflt : ν) (d : Nat) (n : Nest ν (d + 1)) :
+    WF (d + 1) (fromUncompressed dflt d n) ∧ noEmptyB dflt (d + 1) (fromUncompressed dflt d n) = true := by
+  cases h : makeFiber dflt d n with
+  | some t =>
+    rw [fromUncompressed_of_some h]
+    have g := makeFiber_good dflt d n t h
+    exact ⟨g.wf, g.noEmpty⟩
+  | none =>
+    rw [fromUncompressed_of_none h]
+    exact ⟨⟨sorted_nil, fun e he => by cases he⟩, rfl⟩
+
+/-- … and these three facts determine the result: ANY tree that is sorted, stores no empty
+    element and has the nest's non-default entries as content IS the model's tree.  (So
+    evaluating the specification on the implementation's tree and comparing that tree with
+    the model's are the same test.) -/
+theorem fromUncompressed_complete (dflt : ν) (d : Nat) (n : Nest ν (d + 1)) (t : Tree Nat ν (d + 1))
+    (hw : WF (d + 1) t) (hn : noEmptyB dflt (d + 1) t = true)
+    (hc : content dflt (d + 1) t = nestContent dflt (d + 1) n) :
+    t = fromUncompressed dflt d n := by
+  obtain ⟨hw', hn'⟩ := fromUncompressed_canonical dflt d n
+  exact canonical_unique dflt (d + 1) t (fromUncompressed dflt d n) hw hw' hn hn'
+    (hc.trans (fromUncompressed_content dflt d n).symm)
+
+/-- The result is empty exactly for the all-default nests. -/
+theorem fromUncompressed_empty_iff (dflt : ν) (d : Nat) (n : Nest ν (d + 1)) :
+    asList (fromUncompressed dflt d n) = [] ↔ allDefault dflt (d + 1) n = true := by
+  rw [← makeFiber_eq_none_iff]
+  cases h : makeFiber dflt d n with
+  | some t =>
+    rw [fromUncompressed_of_some h]
+    exact ⟨fun e => absurd e (makeFiber_good dflt d n t h).ne, fun e => by cases e⟩
+  | none =>
+    rw [fromUncompressed_of_none h]
+    exact ⟨fun _ => rfl, fun _ => rfl⟩
+
+/-- `Tensor.fromUncompressed`: the shape computed by `_calc_shape` (as written) is the
+    nest's dimensions, for every rectangular nest with positive dimensions — all-default
+    ones included. -/
+theorem fromUncompressed_tensor_shape (d : Nat) (dims : List Nat) (n : Nest ν (d + 1))
+    (hr : rectB (d + 1) dims n = true) (hpos : ∀ k ∈ dims, 0 < k) :
+    calcShape d n = dims :=
+  calcShape_eq_dims d dims n hr hpos
+
+/-- `Fiber.fromUncompressed(n).getShape()` is the nest's dimensions PROVIDED the nest has a
+    non-default entry or has depth 1.  (Gap: for an all-default nest of depth ≥ 2 the code
+    returns `Fiber([], [], shape=len(n))`, whose shape is `[len(n)]` — see
+    `fromUncompressed_fiber_shape_allDefault`.) -/
+theorem fromUncompressed_fiber_shape_partial (dflt : ν) (d : Nat) (dims : List Nat) (n : Nest ν (d + 1))
+    (hr : rectB (d + 1) dims n = true) (hpos : ∀ k ∈ dims, 0 < k)
+    (hne : allDefault dflt (d + 1) n = false ∨ d = 0) :
+    fiberShape dflt d n = dims := by
+  unfold fiberShape
+  cases h : makeFiber dflt d n with
+  | some t =>
+    simp only [Option.isSome_some, if_true]
+    exact fiberShapeSome_eq_dims dflt d dims n hr (by rw [h]; rfl)
+  | none =>
+    have hall := (makeFiber_eq_none_iff dflt d n).1 h
+    rcases hne with hne | hd
+    · rw [hall] at hne; cases hne
+    · subst hd
+      simp only [Option.isSome_none, Bool.false_eq_true, if_false]
+      have := calcShape_eq_dims 0 dims n hr hpos
+      exact this
+
+/-- The excluded class really fails: an all-default nest of depth ≥ 2 gets the
+    one-element shape `[len(n)]`, which is not its dimension list. -/
+theorem fromUncompressed_fiber_shape_allDefault (dflt : ν) (d : Nat) (n : Nest ν (d + 2))
+    (hall : allDefault dflt (d + 2) n = true) :
+    fiberShape dflt (d + 1) n = [List.length (asNestList n)] := by
+  unfold fiberShape
+  rw [(makeFiber_eq_none_iff dflt (d + 1) n).2 hall]
+  rfl
+
+end FromU
+
+/-! ## §2  uncompress ∘ fromUncompressed -/
+
+section Unc
+variable {ν : Type} [DecidableEq ν]
+
+/-- Round trip, PARTIAL: for every rectangular nest with positive dimensions that has at
+    least one non-default entry, uncompressing the tree built from it to the nest's
+    dimensions returns the nest.  (Gap: the property also claims this for all-default
+    nests; there the code raises — `uncompress_fromUncompressed_allDefault_fails`.) -/
+theorem uncompress_fromUncompressed_partial (dflt : ν) : ∀ (d : Nat) (dims : List Nat) (n : Nest ν (d + 1)),
+    rectB (d + 1) dims n = true → (∀ k ∈ dims, 0 < k) → allDefault dflt (d + 1) n = false →
+    uncompress dflt d dims (fromUncompressed dflt d n) = some n := by
+  intro d
+  induction d with
+  | zero =>
+    intro dims n hr hpos hnd
+    cases dims with
+    | nil => rw [rectB_succ_nil] at hr; cases hr
+    | cons m ns =>
+      obtain ⟨hlen, _⟩ := rect_parts hr
+      cases h : makeFiber dflt 0 n with
+      | none => rw [(makeFiber_eq_none_iff dflt 0 n).1 h] at hnd; cases hnd
+      | some t =>
+        have g := makeFiber_good dflt 0 n t h
+        rw [fromUncompressed_of_some h, uncompress_zero, present_of_noEmpty dflt 0 t g.noEmpty, g.chain,
+          if_pos rfl, fillEmpty_zero, rangeFib_eq, ← hlen, (makeFiber_some_zero h).1]
+        refine (uncRows_lockstep (leafKeep dflt) (fun (v : ν) => some v) (some dflt) (asNestList n) 0).trans ?_
+        apply mapMOpt_eq_some_self
+        intro x _
+        cases hk : leafKeep dflt x with
+        | none => exact congrArg some (leafKeep_eq_none.1 hk).symm
+        | some w => exact congrArg some (leafKeep_eq_some.1 hk).2.symm
+  | succ d ih =>
+    intro dims n hr hpos hnd
+    cases dims with
+    | nil => rw [rectB_succ_nil] at hr; cases hr
+    | cons m ns =>
+      obtain ⟨hlen, hall⟩ := rect_parts hr
+      have hpos' : ∀ k ∈ ns, 0 < k := fun k hk => hpos k (List.mem_cons_of_mem _ hk)
+      cases h : makeFiber dflt (d + 1) n with
+      | none => rw [(makeFiber_eq_none_iff dflt (d + 1) n).1 h] at hnd; cases hnd
+      | some t =>
+        have g := makeFiber_good dflt (d + 1) n t h
+        rw [fromUncompressed_of_some h, uncompress_succ, present_of_noEmpty dflt (d + 1) t g.noEmpty, g.chain,
+          if_pos rfl, rangeFib_eq, ← hlen, (makeFiber_some_succ h).1]
+        refine (uncRows_lockstep (makeFiber dflt d) (fun t => uncompress dflt d ns t)
+          (fillEmpty (some dflt) (d + 1) ns) (asNestList n) 0).trans ?_
+        apply mapMOpt_eq_some_self
+        intro x hx
+        cases hk : makeFiber dflt d x with
+        | none =>
+          exact fillEmpty_of_rect dflt (d + 1) ns x (hall x hx) hpos' ((makeFiber_eq_none_iff dflt d x).1 hk)
+        | some w =>
+          have hx' : allDefault dflt (d + 1) x = false := by
+            cases ha : allDefault dflt (d + 1) x with
+            | false => rfl
+            | true => rw [(makeFiber_eq_none_iff dflt d x).2 ha] at hk; cases hk
+          have := ih ns x (hall x hx) hpos' hx'
+          rw [fromUncompressed_of_some hk] at this
+          exact this
+
+/-- The excluded class really fails (this is the negation of the full statement, for every
+    all-default nest with positive dimensions): `_fillempty` reads `payloads[0]` of the empty
+    root, the model's `none` = Python's `IndexError`. -/
+theorem uncompress_fromUncompressed_allDefault_fails (dflt : ν) (d : Nat) (dims : List Nat) (n : Nest ν (d + 1))
+    (hr : rectB (d + 1) dims n = true) (hpos : ∀ k ∈ dims, 0 < k) (hall : allDefault dflt (d + 1) n = true) :
+    uncompress dflt d dims (fromUncompressed dflt d n) = none := by
+  have hnone := (makeFiber_eq_none_iff dflt d n).2 hall
+  rw [fromUncompressed_of_none hnone]
+  cases dims with
+  | nil => rw [rectB_succ_nil] at hr; cases hr
+  | cons m ns =>
+    obtain ⟨hlen, _⟩ := rect_parts hr
+    have hm : 0 < m := hpos m (List.mem_cons_self ..)
+    have hpos' : ∀ k ∈ ns, 0 < k := fun k hk => hpos k (List.mem_cons_of_mem _ hk)
+    obtain ⟨m', rfl⟩ : ∃ m', m = m' + 1 := ⟨m - 1, by omega⟩
+    cases d with
+    | zero =>
+      show uncRows (fun (v : ν) => some v) (fillEmpty none 0 ns) (orMerge [] (rangeFib (m' + 1))) = none
+      rw [rangeFib_eq, rangeFibFrom_succ, fillEmpty_zero]
+      simp [orMerge, uncRows]
+    | succ d =>
+      show uncRows (fun (t : Tree Nat ν (d + 1)) => uncompress dflt d ns t) (fillEmpty none (d + 1) ns)
+        (orMerge [] (rangeFib (m' + 1))) = none
+      rw [rangeFib_eq, rangeFibFrom_succ, fillEmpty_none_of_pos (d + 1) ns hpos']
+      simp [orMerge, uncRows]
+
+end Unc
+
+/-! ## §3  dictionary form and YAML -/
+
+section Yaml
+variable {κ ν : Type}
+
+/-- `dict2fiber(fiber2dict(t))` rebuilds exactly the stored tree — every depth (0 = a
+    rank-0 payload), every coordinate type (tuples included), explicit defaults and empty
+    sub-fibers included. -/
+theorem dict_roundtrip (d : Nat) (t : Tree κ ν d) : dict2fiber d (fiber2dict d t) = some t :=
+  dict2fiber_fiber2dict d t
+
+section
+variable [LT κ] [DecidableRel (α := κ) (· < ·)] [DecidableEq κ] [DecidableEq ν]
+
+/-- … and the rebuilt tree is `==` to the original when both sides have the same leaf
+    default.  (The dictionary carries no default: the rebuilt fibers have default 0.  Gap:
+    with a non-zero default `==` can fail, see the `example` below.) -/
+theorem dict_roundtrip_equal_partial (dflt : ν) (d : Nat) (t : Tree κ ν d) :
+    ∃ r, dict2fiber d (fiber2dict d t) = some r ∧ eqB dflt dflt d r t = true ∧ eqB dflt dflt d t r = true :=
+  ⟨t, dict2fiber_fiber2dict d t, eqB_refl dflt d t, eqB_refl dflt d t⟩
+
+/-- Tensor dump → (abstracted) YAML text → `Tensor.fromYAMLfile`, PARTIAL.  If no coordinate
+    and no shape entry is a tuple, the reloaded tensor has the same rank ids, the same shape,
+    the same stored tree, and compares `==` under a common default; its name is the original
+    one for a rank-0 tensor and `""` otherwise.
+    Gaps w.r.t. the property: (1) tuple coordinates — `tensor_yaml_tuple_fails`;
+    (2) the name of a tensor of rank ≥ 1 is dropped — visible in the statement;
+    (3) the default is not carried — `loadedLeafDefault`, so `==` is only claimed when the
+    original's default is the one the loader installs. -/
+theorem tensor_yaml_roundtrip_partial (plain : κ → Bool) (dflt : ν) {d : Nat} (t : TRep κ ν d)
+    (hc : allCoords plain d t.root = true) (hs : t.shape.all plain = true) :
+    ∃ r, tensorYamlRoundtrip plain t = some r ∧ r.rankIds = t.rankIds ∧ r.shape = t.shape ∧
+         r.root = t.root ∧ r.name = (if d = 0 then t.name else "") ∧
+         tensorEqB dflt dflt r t = true ∧ tensorEqB dflt dflt t r = true := by
+  refine ⟨{ rankIds := t.rankIds, shape := t.shape, name := (if d = 0 then t.name else ""), root := t.root },
+    ?_, rfl, rfl, rfl, rfl, ?_, ?_⟩
+  · unfold tensorYamlRoundtrip yamlText tensorLoad tensorDump
+    simp only [hc, hs, Bool.and_self, if_true, dict2fiber_fiber2dict]
+  · simp [tensorEqB, eqB_refl]
+  · simp [tensorEqB, eqB_refl]
+
+/-- rank-0 tensors and unnamed tensors round-trip with their name -/
+theorem tensor_yaml_name_kept (plain : κ → Bool) {d : Nat} (t : TRep κ ν d) (r : TRep κ ν d)
+    (h : tensorYamlRoundtrip plain t = some r) (hn : d = 0 ∨ t.name = "") : r.name = t.name := by
+  unfold tensorYamlRoundtrip yamlText tensorLoad tensorDump at h
+  split at h
+  · rename_i x hx
+    split at hx
+    · cases hx
+      simp only [dict2fiber_fiber2dict] at h
+      cases h
+      rcases hn with hd | hn
+      · simp [hd]
+      · by_cases hd : d = 0 <;> simp [hd, hn]
+    · cases hx
+  · cases h
+
+/-- gap (2) is real: for rank ≥ 1 the reloaded name is always `""` -/
+theorem tensor_yaml_name_dropped (plain : κ → Bool) {d : Nat} (t r : TRep κ ν (d + 1))
+    (h : tensorYamlRoundtrip plain t = some r) : r.name = "" := by
+  unfold tensorYamlRoundtrip yamlText tensorLoad tensorDump at h
+  split at h
+  · rename_i x hx
+    split at hx
+    · cases hx
+      simp only [dict2fiber_fiber2dict] at h
+      cases h
+      rfl
+    · cases hx
+  · cases h
+
+/-- gap (1) is real: a tuple coordinate (or tuple shape entry) makes the load fail -/
+theorem tensor_yaml_tuple_fails (plain : κ → Bool) {d : Nat} (t : TRep κ ν d)
+    (h : allCoords plain d t.root = false ∨ t.shape.all plain = false) :
+    tensorYamlRoundtrip plain t = none := by
+  unfold tensorYamlRoundtrip yamlText
+  rcases h with h | h <;> simp [h, tensorDump]
+
+/-- `Fiber.dump` → text → `Fiber.fromYAMLfile`, PARTIAL (same gaps (1) and (3)). -/
+theorem fiber_yaml_roundtrip_partial (plain : κ → Bool) (dflt : ν) (d : Nat) (t : Tree κ ν (d + 1))
+    (hc : allCoords plain (d + 1) t = true) :
+    fiberYamlRoundtrip plain d t = some t ∧ eqB dflt dflt (d + 1) t t = true := by
+  unfold fiberYamlRoundtrip
+  simp only [hc, if_true, dict2fiber_fiber2dict, eqB_refl, and_self]
+
+end
+
+/-- the fiber `Fiber([2], [0])` -/
+def witnessStoredZero : Tree Nat Int 1 := ([(2, (0 : Int))] : List (Nat × Int))
+
+/-- gap (3) is real: a fiber with default 7 that stores a 0 is not `==` to its reloaded copy,
+    whose default is 0 (both directions). -/
+theorem default_lost_witness :
+    eqB (7 : Int) 0 1 witnessStoredZero witnessStoredZero = false ∧
+    eqB (0 : Int) 7 1 witnessStoredZero witnessStoredZero = false := by
+  let z : Tree Nat Int 0 := (0 : Int)
+  have h7 : present (7 : Int) 0 witnessStoredZero = ([(2, z)] : Fib Nat (Tree Nat Int 0)) := rfl
+  have h0 : present (0 : Int) 0 witnessStoredZero = ([] : Fib Nat (Tree Nat Int 0)) := rfl
+  have e1 : orMerge ([(2, z)] : Fib Nat (Tree Nat Int 0)) ([] : Fib Nat (Tree Nat Int 0)) =
+      [(2, (Mask.A, some z, none))] := by rw [orMerge]; rfl
+  have e2 : orMerge ([] : Fib Nat (Tree Nat Int 0)) ([(2, z)] : Fib Nat (Tree Nat Int 0)) =
+      [(2, (Mask.B, none, some z))] := by rw [orMerge]; rfl
+  constructor
+  · rw [eqB_succ, h7, h0, e1]; rfl
+  · rw [eqB_succ, h7, h0, e2]; rfl
+
+end Yaml
+
+/-! ## §4  fromRandom (as a function of the recorded draws) -/
+
+section Random
+
+theorem inShapeB_succ {ν : Type} (d n : Nat) (ns : List Nat) (t : Tree Nat ν (d + 1)) :
+    inShapeB (d + 1) (n :: ns) t = (asList t).all (fun e => decide (e.1 < n) && inShapeB d ns e.2) := rfl
+
+/-- Whatever the draws, every coordinate the random tree stores lies inside the requested
+    shape, at every level. -/
+theorem random_in_shape (dflt : Int) : ∀ (d : Nat) (shape dens : List Nat) (s s' : Draws) (t : Tree Nat Int (d + 1)),
+    fromRandom dflt d shape dens s = some (t, s') → inShapeB (d + 1) shape t = true := by
+  intro d
+  induction d with
+  | zero =>
+    intro shape dens s s' t h
+    cases shape with
+    | nil => rw [fromRandom_nil_shape] at h; cases h
+    | cons n ns =>
+      cases dens with
+      | nil => rw [fromRandom_nil_dens] at h; cases h
+      | cons q qs =>
+        rw [fromRandom_zero] at h
+        rw [inShapeB_succ]
+        apply List.all_eq_true.2
+        intro e he
+        have := (randLoop_mem _ _ _ _ h e he).1
+        have hlt : e.1 < n := List.mem_range.1 this
+        simp [hlt, inShapeB]
+  | succ d ih =>
+    intro shape dens s s' t h
+    cases shape with
+    | nil => rw [fromRandom_nil_shape] at h; cases h
+    | cons n ns =>
+      cases dens with
+      | nil => rw [fromRandom_nil_dens] at h; cases h
+      | cons q qs =>
+        rw [fromRandom_succ] at h
+        rw [inShapeB_succ]
+        apply List.all_eq_true.2
+        intro e he
+        obtain ⟨hmem, s1, s2, hb⟩ := randLoop_mem _ _ _ _ h e he
+        have hlt : e.1 < n := List.mem_range.1 hmem
+        obtain ⟨u, us', _, hcase⟩ := randUpperBody_some hb
+        rcases hcase with ⟨_, t', ht', hp⟩ | ⟨_, _, hp, _⟩
+        · have hin := ih ns qs _ s2 t' ht'
+          by_cases hemp : isEmpty dflt (d + 1) t' = true
+          · rw [if_pos hemp] at hp; cases hp
+          · rw [if_neg hemp] at hp
+            have : e.2 = t' := Option.some.inj hp
+            rw [this, hin]
+            simp [hlt]
+        · cases hp
+
+/-- The stored coordinates are strictly increasing at every level (sub-sequence of `range`). -/
+theorem random_sorted (dflt : Int) : ∀ (d : Nat) (shape dens : List Nat) (s s' : Draws) (t : Tree Nat Int (d + 1)),
+    fromRandom dflt d shape dens s = some (t, s') → WF (d + 1) t := by
+  intro d
+  induction d with
+  | zero =>
+    intro shape dens s s' t h
+    cases shape with
+    | nil => rw [fromRandom_nil_shape] at h; cases h
+    | cons n ns =>
+      cases dens with
+      | nil => rw [fromRandom_nil_dens] at h; cases h
+      | cons q qs =>
+        rw [fromRandom_zero] at h
+        refine ⟨?_, fun _ _ => trivial⟩
+        have hsub := randLoop_sublist _ _ _ _ h
+        have : List.Pairwise (· < ·) (List.map (·.1) (asList t)) :=
+          List.Pairwise.sublist hsub List.pairwise_lt_range
+        exact (List.pairwise_map.1 this)
+  | succ d ih =>
+    intro shape dens s s' t h
+    cases shape with
+    | nil => rw [fromRandom_nil_shape] at h; cases h
+    | cons n ns =>
+      cases dens with
+      | nil => rw [fromRandom_nil_dens] at h; cases h
+      | cons q qs =>
+        rw [fromRandom_succ] at h
+        refine ⟨?_, ?_⟩
+        · have hsub := randLoop_sublist _ _ _ _ h
+          have : List.Pairwise (· < ·) (List.map (·.1) (asList t)) :=
+            List.Pairwise.sublist hsub List.pairwise_lt_range
+          exact (List.pairwise_map.1 this)
+        · intro e he
+          obtain ⟨_, s1, s2, hb⟩ := randLoop_mem _ _ _ _ h e he
+          obtain ⟨u, us', _, hcase⟩ := randUpperBody_some hb
+          rcases hcase with ⟨_, t', ht', hp⟩ | ⟨_, _, hp, _⟩
+          · by_cases hemp : isEmpty dflt (d + 1) t' = true
+            · rw [if_pos hemp] at hp; cases hp
+            · rw [if_neg hemp] at hp
+              have : e.2 = t' := Option.some.inj hp
+              rw [this]
+              exact ih ns qs _ s2 t' ht'
+          · cases hp
+
+/-- At density 1 the shape is filled completely: if every uniform draw is below every
+    density (`random() < 1.0 ≤ density`) and no integer draw equals the default (guaranteed
+    when the default lies outside `[1, interval]`), the points holding a value are ALL points of
+    the shape, in row-major order. -/
+theorem random_full_at_density_one (dflt : Int) (m : Nat) : ∀ (d : Nat) (shape dens : List Nat) (s s' : Draws)
+    (t : Tree Nat Int (d + 1)), shape.length = d + 1 → (∀ q ∈ dens, m ≤ q) → GoodDraws m dflt s →
+    fromRandom dflt d shape dens s = some (t, s') →
+    GoodDraws m dflt s' ∧ points dflt (d + 1) t = allPoints shape := by
+  intro d
+  induction d with
+  | zero =>
+    intro shape dens s s' t hlen hq hI h
+    cases shape with
+    | nil => rw [fromRandom_nil_shape] at h; cases h
+    | cons n ns =>
+      cases dens with
+      | nil => rw [fromRandom_nil_dens] at h; cases h
+      | cons q qs =>
+        rw [fromRandom_zero] at h
+        have hq0 : m ≤ q := hq q (List.mem_cons_self ..)
+        have key := randLoop_full (body := randLeafBody dflt q) (GoodDraws m dflt)
+          (fun (v : Int) => points (κ := Nat) dflt 0 v) [[]]
+          (by
+            intro s0 p s1 hI0 hb
+            obtain ⟨hI1, v, hp, hv⟩ := randLeafBody_good hq0 s0 p s1 hI0 hb
+            subst hp
+            refine ⟨hI1, ?_⟩
+            show List.map (·.1) (if v = dflt then [] else [(([] : List Nat), v)]) = [[]]
+            rw [if_neg hv]; rfl)
+          (List.range n) s s' (asList t) hI h
+        have hns : ns = [] := by
+          cases ns with
+          | nil => rfl
+          | cons a b => simp at hlen
+        subst hns
+        refine ⟨key.1, ?_⟩
+        rw [points_succ]
+        exact key.2
+  | succ d ih =>
+    intro shape dens s s' t hlen hq hI h
+    cases shape with
+    | nil => rw [fromRandom_nil_shape] at h; cases h
+    | cons n ns =>
+      cases dens with
+      | nil => rw [fromRandom_nil_dens] at h; cases h
+      | cons q qs =>
+        rw [fromRandom_succ] at h
+        have hq0 : m ≤ q := hq q (List.mem_cons_self ..)
+        have hqs : ∀ q' ∈ qs, m ≤ q' := fun q' hq' => hq q' (List.mem_cons_of_mem _ hq')
+        have key := randLoop_full (body := randUpperBody dflt d ns qs q) (GoodDraws m dflt)
+          (fun (t' : Tree Nat Int (d + 1)) => points dflt (d + 1) t') (allPoints ns)
+          (by
+            intro s0 p s1 hI0 hb
+            obtain ⟨u, us', hus, hcase⟩ := randUpperBody_some hb
+            have hu : u < q := by
+              have : u ∈ s0.us := by rw [hus]; exact List.mem_cons_self ..
+              exact Nat.lt_of_lt_of_le (hI0.1 u this) hq0
+            rcases hcase with ⟨_, t', ht', hp⟩ | ⟨hnu, _, _, _⟩
+            · have hI0' : GoodDraws m dflt { s0 with us := us' } :=
+                ⟨fun x hx => hI0.1 x (by rw [hus]; exact List.mem_cons_of_mem _ hx), hI0.2⟩
+              obtain ⟨hI1, hpts⟩ := ih ns qs _ s1 t' (by simpa using hlen) hqs hI0' ht'
+              refine ⟨hI1, ?_⟩
+              subst hp
+              by_cases hemp : isEmpty dflt (d + 1) t' = true
+              · rw [if_pos hemp]
+                show allPoints ns = []
+                rw [← hpts]
+                unfold points
+                rw [content_eq_nil_of_isEmpty dflt (d + 1) t' hemp]; rfl
+              · rw [if_neg hemp]; exact hpts
+            · exact absurd hu hnu)
+          (List.range n) s s' (asList t) hI h
+        refine ⟨key.1, ?_⟩
+        rw [points_succ]
+        exact key.2
+
+/-- Determinism: the model is, by construction, a function of (shape, density, default,
+    draws); moreover the result depends only on the draws actually consumed — appending
+    further draws to the stream changes neither the tree nor what is consumed.  (That the same
+    seed yields the same draws is a fact about Python's `random`, observed by the harness.) -/
+theorem random_deterministic (dflt : Int) (eu : List Nat) (ei : List Int) : ∀ (d : Nat) (shape dens : List Nat)
+    (s s' : Draws) (t : Tree Nat Int (d + 1)),
+    fromRandom dflt d shape dens s = some (t, s') →
+    fromRandom dflt d shape dens (s.extend eu ei) = some (t, s'.extend eu ei) := by
+  intro d
+  induction d with
+  | zero =>
+    intro shape dens s s' t h
+    cases shape with
+    | nil => rw [fromRandom_nil_shape] at h; cases h
+    | cons n ns =>
+      cases dens with
+      | nil => rw [fromRandom_nil_dens] at h; cases h
+      | cons q qs =>
+        rw [fromRandom_zero] at h ⊢
+        exact randLoop_extend eu ei (randLeafBody_extend dflt q eu ei) _ _ _ _ h
+  | succ d ih =>
+    intro shape dens s s' t h
+    cases shape with
+    | nil => rw [fromRandom_nil_shape] at h; cases h
+    | cons n ns =>
+      cases dens with
+      | nil => rw [fromRandom_nil_dens] at h; cases h
+      | cons q qs =>
+        rw [fromRandom_succ] at h ⊢
+        refine randLoop_extend eu ei ?_ _ _ _ _ h
+        intro s0 p s1 hb
+        obtain ⟨u, us', hus, hcase⟩ := randUpperBody_some hb
+        obtain ⟨us0, is0⟩ := s0
+        simp only at hus
+        subst hus
+        rcases hcase with ⟨hu, t', ht', hp⟩ | ⟨hnu, hd, hp, hs1⟩
+        · have := ih ns qs _ s1 t' ht'
+          unfold randUpperBody
+          simp only [Draws.extend, List.cons_append, hu, if_true] at this ⊢
+          rw [this, hp]
+        · unfold randUpperBody
+          subst hp; subst hs1
+          simp only [Draws.extend, List.cons_append, hnu, if_false, hd, if_true]
+
+end Random
+/-! ## non-vacuity: the hypotheses of every theorem above are satisfiable by non-trivial values -/
+
+section NonVacuity
+
+/-- `[[1, 0], [0, 0]]` -/
+def exNest : Nest Int 2 := ([[1, 0], [0, 0]] : List (List Int))
+/-- `[[0, 0], [0, 0]]` -/
+def exZero : Nest Int 2 := ([[0, 0], [0, 0]] : List (List Int))
+/-- `[7, 0, 1]` with default 7 -/
+def exLeaf : Nest Int 1 := ([7, 0, 1] : List Int)
+
+-- §1: content / canonical have no hypotheses; instances
+example : content (0 : Int) 2 (fromUncompressed 0 1 exNest) = [([0, 0], 1)] := by
+  rw [fromUncompressed_content]; decide
+example : content (7 : Int) 1 (fromUncompressed 7 0 exLeaf) = [([1], 0), ([2], 1)] := by
+  rw [fromUncompressed_content]; decide
+-- completeness: a hand-written tree satisfying the three facts
+def exTreeN : Tree Nat Int 2 := ([(0, ([(0, (1 : Int))] : List (Nat × Int)))] : List (Nat × List (Nat × Int)))
+example : exTreeN = fromUncompressed 0 1 exNest :=
+  fromUncompressed_complete 0 1 exNest exTreeN ((wfB_iff 2 exTreeN).1 (by decide)) (by decide) (by decide)
+-- shape theorems: rectangular, positive dimensions, (not) all default
+example : rectB 2 [2, 2] exNest = true ∧ (∀ k ∈ [2, 2], 0 < k) ∧ allDefault (0 : Int) 2 exNest = false :=
+  ⟨by decide, by decide, by decide⟩
+example : calcShape 1 exZero = [2, 2] := fromUncompressed_tensor_shape 1 [2, 2] exZero (by decide) (by decide)
+example : fiberShape (0 : Int) 1 exNest = [2, 2] :=
+  fromUncompressed_fiber_shape_partial 0 1 [2, 2] exNest (by decide) (by decide) (Or.inl (by decide))
+example : fiberShape (0 : Int) 1 exZero = [2] :=
+  fromUncompressed_fiber_shape_allDefault 0 0 exZero (by decide)
+-- §2
+example : uncompress (0 : Int) 1 [2, 2] (fromUncompressed 0 1 exNest) = some exNest :=
+  uncompress_fromUncompressed_partial 0 1 [2, 2] exNest (by decide) (by decide) (by decide)
+example : uncompress (7 : Int) 0 [3] (fromUncompressed 7 0 exLeaf) = some exLeaf :=
+  uncompress_fromUncompressed_partial 7 0 [3] exLeaf (by decide) (by decide) (by decide)
+example : uncompress (0 : Int) 1 [2, 2] (fromUncompressed 0 1 exZero) = none :=
+  uncompress_fromUncompressed_allDefault_fails 0 1 [2, 2] exZero (by decide) (by decide) (by decide)
+
+-- §3: a rank-2 tensor with an explicit default and an empty sub-fiber, plain coordinates
+def exTree : Tree YCoord Int 2 :=
+  ([(YCoord.int 0, ([(YCoord.int 1, (0 : Int)), (YCoord.int 2, 5)] : List (YCoord × Int))),
+    (YCoord.int 3, ([] : List (YCoord × Int)))] : List (YCoord × List (YCoord × Int)))
+def exRep : TRep YCoord Int 2 :=
+  { rankIds := ["A", "B"], shape := [YCoord.int 4, YCoord.int 3], name := "T", root := exTree }
+example : allCoords YCoord.plain 2 exRep.root = true ∧ exRep.shape.all YCoord.plain = true := ⟨by decide, by decide⟩
+example : ∃ r, tensorYamlRoundtrip YCoord.plain exRep = some r ∧ r.root = exTree ∧ r.name = "" := by
+  obtain ⟨r, h, _, _, hroot, hname, _⟩ := tensor_yaml_roundtrip_partial YCoord.plain (0 : Int) exRep (by decide) (by decide)
+  exact ⟨r, h, hroot, by simpa using hname⟩
+/-- a flattened tensor: tuple coordinates -/
+def exTuple : TRep YCoord Int 1 :=
+  { rankIds := ["[\"A\", \"B\"]"], shape := [YCoord.tup [2, 2]], name := "",
+    root := ([(YCoord.tup [0, 0], (1 : Int))] : List (YCoord × Int)) }
+example : tensorYamlRoundtrip YCoord.plain exTuple = none :=
+  tensor_yaml_tuple_fails YCoord.plain exTuple (Or.inl (by decide))
+
+-- §4
+def exDraws : Draws := { us := [0, 1, 0], is := [3, 4, 5] }
+example : GoodDraws 2 0 exDraws := ⟨by decide, by decide⟩
+example : (fromRandom 0 1 [1, 2] [2, 2] exDraws).isSome = true := by decide
+example : ∀ t s', fromRandom 0 1 [1, 2] [2, 2] exDraws = some (t, s') → points 0 2 t = [[0, 0], [0, 1]] := by
+  intro t s' h
+  exact (random_full_at_density_one 0 2 1 [1, 2] [2, 2] exDraws s' t rfl (by decide) ⟨by decide, by decide⟩ h).2
+
+end NonVacuity
+end Ft
